@@ -1764,10 +1764,25 @@ class Normalizer:
         if not any(self._first_call(p, modname, cname, stack) is not None for p in parts):
             return None
         tnames = {n.id for g_ in comp.generators for n in ast.walk(g_.target) if isinstance(n, ast.Name)}
-        if any(g_.is_async for g_ in comp.generators) or (tnames & state["locals"]):
+        if any(g_.is_async for g_ in comp.generators):
             return None
         self.counter += 1
         acc = f"_comp{self.counter}"
+        clash = tnames & state["locals"]
+        if clash:
+            # the comprehension's own variables live in their own scope: as loop variables of the function they get fresh names
+            ren = {n: f"{n}__comp{self.counter}" for n in clash}
+            r_ = _Rename(ren)
+            for gi_, g_ in enumerate(comp.generators):
+                g_.target = r_.visit(g_.target)
+                g_.ifs = [r_.visit(c) for c in g_.ifs]
+                if gi_ > 0:
+                    g_.iter = r_.visit(g_.iter)
+            if isinstance(comp, ast.DictComp):
+                comp.key, comp.value = r_.visit(comp.key), r_.visit(comp.value)
+            else:
+                comp.elt = r_.visit(comp.elt)
+            tnames = {ren.get(n, n) for n in tnames}
         if isinstance(comp, ast.DictComp):
             inner = ast.Assign(targets=[ast.Subscript(value=ast.Name(id=acc, ctx=ast.Load()), slice=comp.key, ctx=ast.Store())], value=comp.value, type_comment=None)
             init = ast.Dict(keys=[], values=[])
